@@ -163,6 +163,17 @@ func c09MaintFacts(l *lean) {
 			}
 		}
 	}
+	// wave 9: HOW verifyThumbprint compares the id fragment with the thumbprint (text against text)
+	_, val := parseFile("vdr/didnuts/validators.go")
+	cmp := []string{}
+	if fd := c09Method(val, "verificationMethodValidator", "verifyThumbprint"); fd != nil {
+		for _, st := range c09StmtList(fd.Body, func(s string) bool { return true }) {
+			if strings.Contains(st, "does not match ID") || strings.Contains(st, "Fragment") || strings.Contains(st, "Decode") {
+				cmp = append(cmp, st)
+			}
+		}
+	}
+	l.def("thumbprintIdComparison", "List String", leanStrList(cmp), cmp)
 	l.def("removeVerificationMethodFields", "List String", leanStrList(fields), fields)
 	l.def("removeLoopTests", "List String", leanStrList(tests), tests)
 }
